@@ -160,6 +160,12 @@ def r1(p, rep, only=None):
         base, subs = ir.application_classes(p)
         targets += subs
         targets.append(p.cls("Graph", "tracer.graph"))
+    # record classes that sit next to the tracers and define equality themselves (a summary object stored inside a
+    # tracer, e.g. the parameters of a factory): they are part of the key through the tracer that holds them
+    sigmod = targets[0].module
+    for c in p.classes.values():
+        if c.module is sigmod and c not in targets and "__eq__" in c.methods and "__init__" in c.methods and not p.subclasses(c, strict=True):
+            targets.append(c)
     for c in targets:
         if only is not None and c.name not in only:
             continue
